@@ -7,7 +7,7 @@ string manipulation and object dtype arrays.
 import warnings
 import numpy as np
 
-from .base import BackendProvider
+from .base import BackendProvider, compiled_divide
 
 # numpy 2.x moved VisibleDeprecationWarning to numpy.exceptions
 from numpy.exceptions import VisibleDeprecationWarning as NumpyVisibleDeprecationWarning
@@ -120,7 +120,7 @@ class NumpyBackendProvider(BackendProvider):
 
         param_names = list(self._collect_params(ir))
         fn_source = f"def _expr({', '.join(param_names)}): return {source}"
-        ns = {'np': np}
+        ns = {'np': np, '_div': compiled_divide}
         try:
             exec(fn_source, ns)
         except Exception:
@@ -143,7 +143,12 @@ class NumpyBackendProvider(BackendProvider):
             r = self._ir_to_source(right)
             if l is None or r is None:
                 return None
-            py_op = {'+': '+', '-': '-', '*': '*', '%': '/', '^': '**'}.get(op)
+            # A verb that is not a Python operator is emitted as a call of its helper:
+            # Divide answers :undefined for a scalar zero divisor (compiled_divide).
+            call = {'%': '_div'}.get(op)
+            if call is not None:
+                return f'{call}({l},{r})'
+            py_op = {'+': '+', '-': '-', '*': '*', '^': '**'}.get(op)
             if py_op is None:
                 return None
             return f'({l}{py_op}{r})'
